@@ -46,6 +46,20 @@ def collections(tier):
             assert same != docs[1]
             shapes.append(('dup-id-before', [same, docs[0]] + docs[2:]))
             shapes.append(('dup-id-after', [docs[0], same] + docs[2:]))
+        if len(docs) >= 3 and (n_rc >= 2 or n_rd >= 2 or (n_rc >= 1 and n_rd >= 1)):
+            # message IDs dealt round-robin over the kinds, so that equal kinds are never neighbours in message-ID order
+            # (roCreate#1, other#2, roCreate#3 ...; roDelete#1, roCreate#2, roDelete#3 ...), for two starting kinds
+            import re
+            groups = [docs[:n_rc], docs[n_rc:n_rc + n_other], docs[n_rc + n_other:]]
+            for start in (0, 2):
+                gs = [list(g) for g in (groups[start:] + groups[:start])]
+                order = []
+                while any(gs):
+                    for g in gs:
+                        if g:
+                            order.append(g.pop(0))
+                renum = [re.sub(r'<messageID>\d+</messageID>', '<messageID>%d</messageID>' % (k + 1), t, count=1) for k, t in enumerate(order)]
+                shapes.append(('interleaved-%d' % start, renum))
         for shape, dl in shapes:
             for inc in (False, True):
                 accept = (len(dl) > 0 and not mixed and n_rc == 1 and n_rd <= 1 and (inc or n_rd == 1))
